@@ -122,6 +122,15 @@ RegCompiled(n, v, old) ==
     /\ hist' = Append(hist, [op |-> "regcompiled", n |-> n, v |-> v + 20, b |-> old, obs |-> Observation(-1, cache', loads)])
     /\ UNCHANGED <<content, mtime, loads, cacheOn, autoReload, clock, remembered>>
 
+\* a template object the engine has loaded under name n is registered under a second name a (Load + RegisterTemplate): that is
+\* a registration like any other -- a then means that version (31, 32), whatever the flags are and whatever happens to n later
+RegAlias(a, n) ==
+    /\ a \in RegNames /\ n \notin RegNames /\ cacheOn
+    /\ cache[n].ver \in Vers /\ ~Stale(n)                       \* (Load(n) is served from the cache: no loader is read)
+    /\ cache' = [cache EXCEPT ![a] = [ver |-> cache[n].ver + 30, from |-> 0, lastMod |-> cache[n].lastMod]]
+    /\ hist' = Append(hist, [op |-> "regalias", n |-> a, of |-> n, v |-> cache[n].ver + 30, obs |-> Observation(-1, cache', loads)])
+    /\ UNCHANGED <<content, mtime, loads, cacheOn, autoReload, clock, remembered>>
+
 \* a content change always raises the time stamp (a change with an equal stamp is undetectable by design)
 \* every write to a file gets a time stamp newer than every stamp the name has had.  A file may be put into the first
 \* search path, or back into the second, only if that does not leave the loader with files in both paths while it
@@ -162,6 +171,7 @@ Next ==
     /\ \/ \E n \in NamesUsed : Render(n)
        \/ \E n \in RegNames \cap NamesUsed : \E v \in Vers : Register(n, v)
        \/ \E n \in RegNames \cap NamesUsed : \E old \in BOOLEAN : RegCompiled(n, 1, old)
+       \/ \E a \in RegNames \cap NamesUsed : \E n \in NamesUsed : RegAlias(a, n)
        \/ \E i \in Slots : \E n \in NamesUsed : \E v \in PutVers : Put(i, n, v)
        \/ \E i \in Slots : \E n \in NamesUsed : Delete(i, n)
        \/ (~Broken /\ \E b \in BOOLEAN : SetCache(b) \/ SetAutoReload(b) \/ SetDevMode(b))
@@ -180,7 +190,7 @@ P5 == [][IsRender /\ ~cacheOn /\ content[1][Last.n] # 0 => Last.obs.served = Ser
 P3broken == [][IsRender /\ cacheOn /\ autoReload /\ FirstWith(Last.n) # 0 /\ content[FirstWith(Last.n)][Last.n] = BrokenVer
                  /\ (cache[Last.n].ver = 0 \/ Stale(Last.n)) => Last.obs.served = -3]_vars
 P6 == [][IsRender /\ Last.obs.served = 0 => cache' = cache]_vars
-P1 == [][(hist' # hist /\ Last.op \in {"register", "regcompiled"}) => cache'[Last.n].ver = Last.v]_vars
+P1 == [][(hist' # hist /\ Last.op \in {"register", "regcompiled", "regalias"}) => cache'[Last.n].ver = Last.v]_vars
 TypeOK == \A n \in Names : cache[n].ver # 0 => (cache[n].from = 0 \/ cache[n].from \in Slots)
 
 Complete == Len(hist) = MaxLen /\ hist[MaxLen].op = "render"
